@@ -13,6 +13,7 @@ import Dassh.Model.Accept
 import Dassh.Model.Pin
 import Dassh.Model.Regions
 import Dassh.Model.HotspotSort
+import Dassh.Model.FlowSplit
 
 open Dassh.Model
 
@@ -118,6 +119,17 @@ def handle (line : String) : String :=
       let fuel := Pin.fuelShells qd ts (floatPairs vs)
       "ok " ++ showFloats ([Pin.cladOD cl, Pin.cladMW cl, tid, ts] ++ fuel)
     | _, _ => "bad-op"
+  | "fsiter" :: rest =>
+    -- fsiter re deb lam kgrid len | x de reL reT cfL cfT s | (edge) | (corner)
+    let (hd, r1) := splitBar rest
+    let (a, r2) := splitBar r1
+    let (b, c) := splitBar r2
+    match floatList hd, floatList a, floatList b, floatList c with
+    | some [re, deb, lam, kg, len], some t0, some t1, some t2 =>
+      match FlowSplit.updateFloat re deb lam kg len t0 t1 t2 with
+      | some (x0, x1, x2) => "ok " ++ showFloats [x0, x1, x2]
+      | none => "bad-op"
+    | _, _, _, _ => "bad-op"
   | "hssort" :: rest =>
     -- hssort id id ...   (HotspotSort.sortById: pairs id:rowindex)
     match natList rest with
